@@ -12,15 +12,21 @@ pub(super) struct ContainerAttributes {
 impl ContainerAttributes {
     pub(super) fn new(attrs: &[Attribute]) -> syn::Result<Self> {
         let mut this = ContainerAttributes::default();
+        /* an item can carry several `#[serde(...)]` attributes: read them as one list */
+        let mut serde = proc_macro2::TokenStream::new();
         for a in attrs {
             let Ok(a) = a.meta.require_list() else {continue};
             if a.path.get_ident().is_some_and(|i| i == "openapi") {
                 this.openapi = a.parse_args()?;
             }
             if a.path.get_ident().is_some_and(|i| i == "serde") {
-                this.serde = a.parse_args()?;
+                if !serde.is_empty() {
+                    serde.extend(quote::quote! {,});
+                }
+                serde.extend(a.tokens.clone());
             }
         }
+        this.serde = syn::parse2(serde)?;
         Ok(this)
     }
 }
@@ -33,15 +39,21 @@ pub(super) struct FieldAttributes {
 impl FieldAttributes {
     pub(super) fn new(attrs: &[Attribute]) -> syn::Result<Self> {
         let mut this = FieldAttributes::default();
+        /* an item can carry several `#[serde(...)]` attributes: read them as one list */
+        let mut serde = proc_macro2::TokenStream::new();
         for a in attrs {
             let Ok(a) = a.meta.require_list() else {continue};
             if a.path.get_ident().is_some_and(|i| i == "openapi") {
                 this.openapi = a.parse_args()?;
             }
             if a.path.get_ident().is_some_and(|i| i == "serde") {
-                this.serde = a.parse_args()?;
+                if !serde.is_empty() {
+                    serde.extend(quote::quote! {,});
+                }
+                serde.extend(a.tokens.clone());
             }
         }
+        this.serde = syn::parse2(serde)?;
         Ok(this)
     }
 }
@@ -54,15 +66,21 @@ pub(super) struct VariantAttributes {
 impl VariantAttributes {
     pub(super) fn new(attrs: &[Attribute]) -> syn::Result<Self> {
         let mut this = VariantAttributes::default();
+        /* an item can carry several `#[serde(...)]` attributes: read them as one list */
+        let mut serde = proc_macro2::TokenStream::new();
         for a in attrs {
             let Ok(a) = a.meta.require_list() else {continue};
             if a.path.get_ident().is_some_and(|i| i == "openapi") {
                 this.openapi = a.parse_args()?;
             }
             if a.path.get_ident().is_some_and(|i| i == "serde") {
-                this.serde = a.parse_args()?;
+                if !serde.is_empty() {
+                    serde.extend(quote::quote! {,});
+                }
+                serde.extend(a.tokens.clone());
             }
         }
+        this.serde = syn::parse2(serde)?;
         Ok(this)
     }
 }
